@@ -409,6 +409,20 @@ def run_fill(model, sc: Scenario, ctx=None):
                 raise ev.err("comparison of the solution matrix", n, mod)
             return PredList([(r, opn, other) for r in self.rows], per_volume=any(not _reduced(r) for r in self.rows))
 
+        def sym_store(self, ev, idx, v, t, mod):
+            """x[<mask>] = 0 on the solution: with one truth value per (component, volume) single entries are overwritten - a component that is small at SOME
+            volumes is altered there; with one truth value per component (a reduction over the volumes) whole rows are overwritten"""
+            if not (isinstance(idx, PredList) and is_sym(v) and v == 0):
+                raise ev.err("store into the solution matrix other than a masked reset to zero", t, mod)
+            if idx.per_volume:
+                SNAP = sp.Function("ZEROED_WHERE_SMALL")
+                self.rows = [SNAP(as_sym(r), sp.sympify(b_)) for r, (e_, o_, b_) in zip(self.rows, idx.preds)]
+                return
+            new = []
+            for r, p_ in zip(self.rows, idx.preds):
+                new.append(sp.Integer(0) if PredV(*p_).sym_truth(ev, t, mod) else r)
+            self.rows = new
+
     class SolMatT:
         """the transposed solution: one row per volume, one column per component"""
 
@@ -701,6 +715,8 @@ def run_fill(model, sc: Scenario, ctx=None):
         atol = a[3] if len(a) > 3 else k.get("atol")
         sc.drop_tests.append(atol)
         if is_sym(x):
+            if x.is_number:
+                return bool(x == 0)          # a column of exact zeros (reset by the code itself) vanishes; any other constant column does not (tolerances are tiny)
             names = {str(s) for s in x.free_symbols}
             return bool(names) and names <= sc.zero
         raise AnalysisError("allclose of a non-column")
@@ -921,6 +937,7 @@ def run_fill(model, sc: Scenario, ctx=None):
         "numpy.concatenate": concatenate, "numpy.vstack": concatenate, "numpy.row_stack": concatenate, "numpy.repeat": repeat, "numpy.tile": tile, "sympy.matrix2numpy": matrix2numpy,
         "numpy.linalg.lstsq": lstsq, "numpy.allclose": allclose, "numpy.sum": np_sum,
         "numpy.empty": np_empty, "numpy.zeros": np_empty, "numpy.result_type": result_type,
+        "numpy.all": lambda ev, a, k: predlist_all(ev, a, k) if isinstance(a[0], PredList) else __import__("cijsa.sym", fromlist=["lib_all"]).lib_all(ev, a, dict(k), None, None),
         "numpy.linalg.svd": svd, "kernel.max": kernel_reduce("max"), "kernel.min": kernel_reduce("min"), "kernel.any": kernel_reduce("any"), "kernel.all": kernel_reduce("all"),
         "kernelflags.any": kernelflags_reduce("any"), "kernelflags.all": kernelflags_reduce("all"),
         "numpy.isclose": isclose, "boolmat.any": boolred("any"), "boolmat.all": boolred("all"),
